@@ -384,6 +384,101 @@ def gen_vars(rng, tier):
     return chunk("vars", normal, 200) + [["case varshang%d" % i, o] for i, o in enumerate(hanging)]
 
 
+# ------------------------------------------------------------------ tokenizer round trips (round 2)
+TOK_ALPHA = "ab ,;()=\t:"
+
+
+def rich_string(rng, delims, maxlen=24):
+    """a string of up to `maxlen` characters that is rich in the delimiters: runs of delimiters at
+    both ends and inside, the delimiter string itself (solid mode) repeated, empty fields"""
+    n = rng.randint(0, maxlen)
+    out = ""
+    while len(out) < n:
+        r = rng.random()
+        if r < 0.35 and delims:
+            out += rng.choice(delims) * rng.choice([1, 1, 1, 2, 3])
+        elif r < 0.50 and delims:
+            out += delims * rng.choice([1, 1, 2, 3])
+        elif r < 0.58 and delims:
+            out += delims[:-1] if len(delims) > 1 else delims       # a partial solid delimiter
+        else:
+            out += "".join(rng.choice(TOK_ALPHA) for _ in range(rng.choice([1, 1, 2, 3, 5])))
+    return out[:maxlen]
+
+
+def gen_tok(rng, tier):
+    thorough = tier == "thorough"
+    ops = []
+    # exhaustive: every string over {a , ;} up to length 5 / 7, three delimiter strings, the four
+    # option combinations; unparse after 0 / 1 / 2 / all tokens
+    L = 7 if thorough else 5
+    for n in range(L + 1):
+        for t in itertools.product("a,;", repeat=n):
+            st = "".join(t)
+            for d in (",", ",;", ",,"):
+                for solid in (0, 1):
+                    for ae in (0, 1):
+                        k = (n + solid + 2 * ae + len(d)) % 4
+                        ops.append("st.rt %s %s %d %d %d" % (hx(st), hx(d), solid, ae, 99 if k == 3 else k))
+    # random delimiter-rich strings up to length 24 over the property's alphabet
+    nr = 30000 if thorough else 4000
+    dsets = [",", " ", ", ", ",;", " \t", "::", "=", "ab", "()", ";;;", ":", "a", ""]
+    for _ in range(nr):
+        d = rng.choice(dsets)
+        st = rich_string(rng, d)
+        ops.append("st.rt %s %s %d %d %d" % (hx(st), hx(d), rng.randint(0, 1), rng.randint(0, 1),
+                                            rng.choice([0, 1, 2, 3, 5, 99])))
+    return chunk("tok", ops, 400)
+
+
+def nested_string(rng, delims, o, c, maxlen=24):
+    """mostly balanced bracket structure with delimiters inside and outside the brackets"""
+    out = ""
+    depth = 0
+    n = rng.randint(0, maxlen)
+    while len(out) < n:
+        r = rng.random()
+        if r < 0.22:
+            out += o; depth += 1
+        elif r < 0.42 and depth > 0:
+            out += c; depth -= 1
+        elif r < 0.65 and delims:
+            out += rng.choice([rng.choice(delims), delims, rng.choice(delims) * 2])
+        else:
+            out += rng.choice("abxy=")
+    r = rng.random()
+    if r < 0.75:
+        out += c * depth                      # close what is open
+    elif r < 0.85:
+        out = c + out                         # a negative depth
+    return out[:maxlen + 6]
+
+
+def gen_nested(rng, tier):
+    thorough = tier == "thorough"
+    ops = []
+    # exhaustive: every string over {a ( ) ,} up to length 5 / 6, both modes, delimiters "," and ",,"
+    L = 6 if thorough else 5
+    for n in range(L + 1):
+        for t in itertools.product("a(),", repeat=n):
+            st = "".join(t)
+            for d in (",", ",,"):
+                for solid in (0, 1):
+                    ops.append("nst.rt %s %s %s %s %d %d" % (hx(st), hx("("), hx(")"), hx(d), solid, (n + solid) % 3))
+    # random: every (open, close, delimiter, solid) combination of a list
+    brs = [("(", ")"), ("[", "]"), ("{", "}"), ("<", ">"), ("(", "("), ("<<", ">>"), ("begin", "end"), ("", ")"),
+           ("(", ""), (",", ")")]
+    dsets = [",", " ", ", ", ",;", " \t", "::", "=", ";;;", "", "()", "a"]
+    nr = 20000 if thorough else 3000
+    for _ in range(nr):
+        o, c = rng.choice(brs) if rng.random() < 0.5 else brs[0]
+        d = rng.choice(dsets)
+        st = nested_string(rng, d, o, c)
+        ops.append("nst.rt %s %s %s %s %d %d" % (hx(st), hx(o), hx(c), hx(d), rng.randint(0, 1),
+                                                rng.choice([0, 1, 2, 3, 99])))
+    return chunk("nst", ops, 400)
+
+
 # ------------------------------------------------------------------ entry points
 def generate(seed, tier):
     rng = random.Random(seed)
@@ -392,6 +487,9 @@ def generate(seed, tier):
     cases += gen_glob(rng, tier)
     cases += gen_keyval(rng, tier)
     cases += gen_vars(rng, tier)
+    rng2 = random.Random(seed * 7919 + 17)          # round 2 streams: the earlier ones are unchanged
+    cases += gen_tok(rng2, tier)
+    cases += gen_nested(rng2, tier)
     return cases
 
 
